@@ -25,7 +25,7 @@ from urllib.parse import urlsplit, quote as urllib_quote
 
 import elementpath.aliases as ta
 
-from elementpath.exceptions import ElementPathValueError
+from elementpath.exceptions import ElementPathError, ElementPathValueError
 from elementpath.namespaces import XML_ID, XML_LANG, XML_NAMESPACE
 from elementpath.helpers import Patterns, is_idrefs, is_xml_codepoint, round_number
 from elementpath.datatypes import DateTime10, DateTime, Date10, Date, \
@@ -364,6 +364,11 @@ def evaluate__round_half_to_even(self: XPathFunction, context: ta.ContextType = 
         context = self.context
 
     item = self.get_argument(context)
+    if isinstance(item, XPathNode):
+        item = self.data_value(item)  # function conversion rules: the argument is atomized
+    if isinstance(item, UntypedAtomic):
+        item = self.cast_to_double(item.value)  # function conversion rules: untyped -> xs:double
+
     if item is None:
         return []
     elif isinstance(item, float) and (math.isnan(item) or math.isinf(item)):
@@ -372,7 +377,7 @@ def evaluate__round_half_to_even(self: XPathFunction, context: ta.ContextType = 
         code = 'XPTY0004' if isinstance(item, str) else 'FORG0006'
         raise self.error(code, "invalid argument type {!r}".format(type(item)))
 
-    precision = 0 if len(self) < 2 else self[1].evaluate(context)
+    precision = 0 if len(self) < 2 else self.get_argument(context, 1, required=True, cls=int)
     try:
         if isinstance(item, int):
             return round(item, precision)  # type: ignore[arg-type]
@@ -398,18 +403,23 @@ def evaluate__abs(self: XPathFunction, context: ta.ContextType = None) \
         context = self.context
 
     item = self.get_argument(context)
+    if isinstance(item, XPathNode):
+        node, item = item, self.data_value(item)  # function conversion rules: atomization
+        if isinstance(item, UntypedAtomic):
+            try:
+                item = self.cast_to_double(item.value)  # untyped -> xs:double
+            except ElementPathError:
+                if isinstance(context, XPathSchemaContext):
+                    return []
+                msg = "invalid string value {!r} for {!r}".format(item.value, node)
+                raise self.error('FOCA0002', msg) from None
+    elif isinstance(item, UntypedAtomic):
+        item = self.cast_to_double(item.value)  # function conversion rules: untyped -> xs:double
+
     if item is None:
         return []
     elif isinstance(item, float) and math.isnan(item):
         return item
-    elif isinstance(item, XPathNode):
-        value = self.string_value(item)
-        try:
-            return abs(Decimal(value))
-        except DecimalException:
-            if isinstance(context, XPathSchemaContext):
-                return []
-            raise self.error('FOCA0002', "invalid string value {!r} for {!r}".format(value, item))
     elif isinstance(item, bool) or not isinstance(item, (float, int, Decimal)):
         raise self.error('XPTY0004', "invalid argument type {!r}".format(type(item)))
     else:
@@ -1000,7 +1010,7 @@ def evaluate__codepoints_to_string(
 
     result = []
     value: Union[ta.ItemType, int]
-    for value in self[0].select(context):
+    for value in self[0].atomization(context):
         if isinstance(value, UntypedAtomic):
             try:
                 value = int(value)
